@@ -76,6 +76,8 @@ def run(ctx):
                     os.symlink(tgt, os.path.join(flk, rel, fn))
         modes += [('filelinks-override', {'op': 'load', 'spec': lib, 'env': flk}, None),
                   ('filelinks-path', {'op': 'load', 'spec': os.path.join(flk, lib, 'library.yaml')}, None)]
+        # the override given as a RELATIVE path (relative to the working directory of the process)
+        modes += [('relative-override', {'op': 'load', 'spec': lib, 'env': os.path.basename(reloc), 'cwd': os.path.dirname(reloc)}, None)]
         # loaded a second time by name after the first object was merged into (overwriting) from another shipped library
         others = [o for o in gen.SHIPPED if o != lib]
         modes += [('name-after-update', {'op': 'load', 'spec': lib, 'after_update': others[(gen.SHIPPED.index(lib) * 5 + 3) % len(others)]}, None)]
